@@ -194,6 +194,30 @@ def one(run, ct, rng, net, quick):
             raise
         except Exception as e:
             out.append(("raised", core.exc_text(e), d3))
+    # ---- (4) the drivers that slice and reconfigure in turn: the target and the forbidden set hold on what they return ------
+    if rng.random() < 0.35:
+        tgt = max(1, size0 // rng.choice([2, 4]))
+        forest = rng.random() < 0.5
+        d4 = dict(d, targets={"target_size": tgt}, call="slice_and_reconfigure_forest" if forest else "slice_and_reconfigure",
+                  reslice=False, inplace=False)
+        try:
+            with core.watchdog(120):
+                src = tree0.copy()
+                if forest:
+                    t4 = src.slice_and_reconfigure_forest(tgt, num_trees=2, max_repeats=4, parallel=False, allow_outer=allow_outer,
+                                                          minimize=minimize, reconf_opts={"subtree_size": 3, "maxiter": 2})
+                else:
+                    t4 = src.slice_and_reconfigure(tgt, max_repeats=4, allow_outer=allow_outer, minimize=minimize,
+                                                   reconf_opts={"subtree_size": 3, "maxiter": 2})
+            case = {"kind": "slice", "net": net.tla(), "ch": observe.children_of(t4), "sl0": sl0, "mult0": int(tree0.multiplicity),
+                    "forbidden": forbidden_spec, "tsize": int(tgt), "tslices": 0, "tover": [0, 0], "entries": [], "ret": 0,
+                    "real": {"size": 0, "flops": 0, "mult": 0}, "after": {inv[i] for i in t4.sliced_inds}, "reslice": False}
+            if t4.contract_stats()["flops"] * 100 < 2**31:
+                out.append(("case", case, d4))
+        except core.Hang:
+            raise
+        except Exception as e:
+            out.append(("raised", core.exc_text(e), d4))
     return out
 
 
@@ -230,7 +254,7 @@ def run(run):
     for case, d, v in zip(cases, descs, verdicts):
         if case["kind"] == "slice":
             if v[0] != "ok":
-                run.violation(f"tree.slice(reslice={d['reslice']}, inplace={d['inplace']}): {v[0]} ({v[1]}) sliced before={sorted(case['sl0'])} "
+                run.violation(f"tree.{d['call']}(reslice={d['reslice']}, inplace={d['inplace']}): {v[0]} ({v[1]}) sliced before={sorted(case['sl0'])} "
                               f"after={sorted(case['after'])} targets={d['targets']} allow_outer={d['allow_outer']} eq={d['net']['eq']} "
                               f"dims={d['net']['dims']} path={d['path']}", d, tags={v[0], "prep:" + d["prep"], "call:slice"})
             continue
